@@ -46,6 +46,7 @@ fn engine() -> String {
 pub fn opts_for(tag: &str) -> GenOpts {
     match tag {
         "safe" => GenOpts::safe(),
+        "missingarg" => GenOpts { pct_field_args: 80, ..GenOpts::safe() },
         "objvar" => GenOpts { pct_var_in_object: 70, pct_input_object: 90, pct_field_args: 70, pct_variable: 60, ..GenOpts::default() },
         "risky" => GenOpts { strings: Alphabet::Risky, pct_field_args: 70, pct_variable: 20, ..GenOpts::default() },
         "refetch" => GenOpts {
@@ -85,7 +86,7 @@ fn tag_for(r: &mut Rng, engine: &str) -> &'static str {
             if k < 35 { "default" } else if k < 60 { "safe" } else if k < 80 { "refetch" } else if k < 90 { "saferefetch" } else { "objvar" }
         }
         _ => {
-            if k < 40 { "default" } else if k < 60 { "safe" } else if k < 72 { "objvar" } else if k < 84 { "risky" } else { "refetch" }
+            if k < 38 { "default" } else if k < 56 { "safe" } else if k < 68 { "objvar" } else if k < 80 { "risky" } else if k < 94 { "refetch" } else { "missingarg" }
         }
     }
 }
@@ -269,7 +270,13 @@ fn gen_case(r: &mut Rng, i: u64) -> Vec<String> {
         return lines_for_case(&engine, i, "demo", &spec, r);
     }
     let tag = tag_for(r, &engine);
-    let p = generate(r, &opts_for(tag));
+    let mut p = generate(r, &opts_for(tag));
+    if tag == "missingarg" {
+        // a required argument removed from a selection WITH a selection set: the compiler accepts it
+        if let Some(q) = hx_projgen::mutate::mutate_fault(r, &p, hx_projgen::mutate::FaultKind::MissingRequiredArgumentLinked) {
+            p = q;
+        }
+    }
     lines_for_case(&engine, i, tag, &to_wire(&p), r)
 }
 
